@@ -1,4 +1,5 @@
 import ThunderProofs.Fed.Bounds
+import ThunderProofs.Fed.MergeDeep
 /-!
 # C09 — Merged gateway schema
 
@@ -37,6 +38,22 @@ theorem required_if_any (a b m : Ty) (wa : WFTy a) (wb : WFTy b) (h : mergeRef t
 theorem nonnull_only_if_all (a b m : Ty) (wa : WFTy a) (wb : WFTy b) (h : mergeRef false a b = some m) :
     m.isNonNull = (a.isNonNull && b.isNonNull) := by
   simpa using (mergeRef_spec false a b m wa wb h).2.2
+
+/-- **... at every list depth**: `[[T!]]!` against `[[T]!]` is `[[T]]`. An argument (or input field) is required
+at a list depth if any side requires it there; an output is non-null at a list depth only if every side
+guarantees it there. -/
+theorem required_if_any_at_depth (d : Nat) (a b m : Ty) (wa : WFTy a) (wb : WFTy b) (h : mergeRef true a b = some m) :
+    nnAt m d = (nnAt a d || nnAt b d) := by
+  simpa using mergeRef_nnAt true d a b m wa wb h
+
+theorem nonnull_only_if_all_at_depth (d : Nat) (a b m : Ty) (wa : WFTy a) (wb : WFTy b) (h : mergeRef false a b = some m) :
+    nnAt m d = (nnAt a d && nnAt b d) := by
+  simpa using mergeRef_nnAt false d a b m wa wb h
+
+/-- the hypotheses are satisfiable with content: `[T!]` against `[T]!` as outputs gives `[T]` -/
+example : mergeRef false (.list (.nonNull (.named 0 0))) (.nonNull (.list (.named 0 0))) = some (.list (.named 0 0)) ∧
+    nnAt (.list (.nonNull (.named 0 0))) 1 = true ∧ nnAt (.nonNull (.list (.named 0 0))) 1 = false := by
+  refine ⟨?_, ?_, ?_⟩ <;> simp [mergeRef, wrapIf, nnAt, under, Ty.isNonNull]
 
 /-- the merged reference has the common shape -/
 theorem merged_shape (i : Bool) (a b m : Ty) (wa : WFTy a) (wb : WFTy b) (h : mergeRef i a b = some m) :
